@@ -126,11 +126,11 @@ def tlc_stats(out):
     return int(g), int(d)
 
 
-def validate_traces(scratch, files, timeout=1800, module="Z80Trace.tla", cfg="Z80Trace.cfg", heap="3g"):
+def validate_traces(scratch, files, timeout=1800, module="Z80Trace.tla", cfg="Z80Trace.cfg", heap="3g", sub=("trace",)):
     """Runs the trace specification over every ndjson file (one TLC per file,
     in parallel).  Returns a list of per-file results:
     {file, lines, consumed, bad:[...], cov:{...}, states}"""
-    d = stage_spec(scratch, ("trace",))
+    d = stage_spec(scratch, sub)
 
     def one(f):
         nlines = sum(1 for _ in open(f))
